@@ -120,7 +120,9 @@ def tlc(run, module, cfg_text, workers=None, timeout=900, env=None, coverage=Fal
         cmd += extra
     cmd.append(os.path.join(SPEC, module + ".tla"))
     e = dict(env or {})
-    jopts = "-Xss1g" + (" -Dtlc2.tool.queue.IStateQueue=StateDeque" if deque else "")
+    # UTF-8: in the POSIX locale the JVM reads the trace files as ASCII and every non-ASCII character becomes "?",
+    # which would make distinct Greek labels equal for the judge
+    jopts = "-Xss1g -Dfile.encoding=UTF-8" + (" -Dtlc2.tool.queue.IStateQueue=StateDeque" if deque else "")
     e["JAVA_TOOL_OPTIONS"] = jopts
     if out_file:
         with open(out_file, "w") as f:
